@@ -16,7 +16,7 @@ try:
         p = subprocess.run(f'patch -p1 -s < {d}/patch.diff', shell=True, cwd=scratch, capture_output=True, text=True)
         if p.returncode != 0:
             summary.append((sid, 'PATCH FAILED')); continue
-        env = dict(os.environ, VERIF_REPO=scratch, VERIF_OUT=outdir)
+        env = dict(os.environ, VERIF_REPO=scratch, VERIF_OUT=outdir, VERIF_TIMEOUT_MS='8000')      # detection needs no long proofs
         r = subprocess.run(['./check', prop, 'quick'], cwd='/verif', capture_output=True, text=True, env=env, timeout=1800)
         lines = [l for l in r.stdout.splitlines() if l.startswith('VIOLATION')]
         ev = {}
